@@ -178,3 +178,21 @@ Theorem truncation_only_after_result_then_nonresult :
                   (m = true \/ Exists (fun x => GrepStop.sc cfg is_match x = true) pre).
 Proof. exact trunc_cut. Qed.
 Print Assumptions truncation_only_after_result_then_nonresult.
+
+(* 9. the source tie (DESIGN §4.2): `DecisionsLib.is_line_by_line_fast` is regenerated on every run from the
+      current text of Core::is_line_by_line_fast (crates/searcher/src/searcher/core.rs); it equals the model's path
+      selection for every configuration, matcher and core.  `nmb` is matcher.non_matching_bytes() as the source
+      sees it (None or a set); the model keeps one membership function that is false for None. *)
+From RG Require Gen.DecisionsLib Proofs.GenLibProofs.
+Theorem is_line_by_line_fast_generated_eq_model :
+  forall (cfg : config) (M : matcher) (c : core) (nmb : option (byte -> bool)),
+    (forall b : byte, m_nonmatching M b = match nmb with Some f => f b | None => false end) ->
+    DecisionsLib.is_line_by_line_fast (c_passthru cfg) (c_stop_on_nonmatch cfg) (has_matched c) (m_line_term M)
+                                      (c_lt cfg) nmb
+    = SearcherCore.is_line_by_line_fast cfg M c.
+Proof. exact GenLibProofs.is_line_by_line_fast_eq. Qed.
+Print Assumptions is_line_by_line_fast_generated_eq_model.
+(* non-vacuity: every matcher has such an `nmb` *)
+Example is_line_by_line_fast_tie_satisfiable : forall M : matcher,
+  forall b : byte, m_nonmatching M b = match Some (m_nonmatching M) with Some f => f b | None => false end.
+Proof. exact GenLibProofs.nm_agrees_some. Qed.
